@@ -1,4 +1,5 @@
 import QuillModel.Time.RewriteProofs
+import QuillModel.Time.SplitProofs
 import QuillModel.Time.PatchProofs
 /-!
 # The initial parts
@@ -120,7 +121,7 @@ theorem populatePartsF_spec (tm : Tm) : ∀ (fuel : Nat) (toks : List Tok), toks
     intro toks hlen hsup hcls
     have hok := supported_ok toks hsup
     simp only [populatePartsF]
-    rw [splitOnce_toks toks hsup]
+    rw [splitOnceCpp_eq, splitOnce_toks toks hsup]
     cases hs : splitHit hitMod toks with
     | none =>
       have hnone := splitHit_none hitMod toks hs
